@@ -450,6 +450,82 @@ class Function:
         return out
 
 
+def _walk_values(x, fnc):
+    """Apply fnc to every operand dict (a dict with a "k" key) reachable from the JSON value x; fnc may mutate it in place."""
+    if isinstance(x, dict):
+        if "k" in x:
+            fnc(x)
+        for v in list(x.values()):
+            if isinstance(v, (dict, list)):
+                _walk_values(v, fnc)
+    elif isinstance(x, list):
+        for v in x:
+            _walk_values(v, fnc)
+
+
+def _propagate_global_arguments(d):
+    """Normalisation: a file-local function whose every caller passes the address of the same global object for a parameter (a
+    `kernel_t *k` context pointer that is always `&kernel`) is analysed with that global in place of the parameter - the rules
+    then see the same accesses whether a helper reads the global directly or is handed its address.  Requires internal linkage,
+    no address-taken use, at least one caller, and the very same global (no offset) at every call site."""
+    for _round in range(6):
+        if not _propagate_global_arguments_once(d):
+            break
+
+
+def _propagate_global_arguments_once(d):
+    fns = {f["name"]: f for f in d["functions"]}
+    taken = set()
+    calls = {}
+    changed = False
+    for f in d["functions"]:
+        for b in f.get("blocks", []):
+            for i in b.get("insts", []):
+                if i.get("op") == "call" and isinstance(i.get("callee"), str) and i["callee"] in fns:
+                    calls.setdefault(i["callee"], []).append(i.get("args", []))
+                _walk_values([v for k_, v in i.items() if k_ != "callee_val"],
+                             lambda o: taken.add(o.get("name")) if o.get("k") == "func" else None)
+    for name, f in fns.items():
+        if not f.get("internal") or name in taken or not f.get("blocks") or name not in calls or f.get("varargs"):
+            continue
+        drop = []
+        for idx, a in enumerate(f.get("args", [])):
+            vals = set()
+            for args in calls[name]:
+                if idx >= len(args) or args[idx].get("k") != "global":
+                    vals.add(None)
+                else:
+                    vals.add(args[idx]["name"])
+            if len(vals) != 1 or None in vals:
+                continue
+            g = list(vals)[0]
+            aname = a.get("name")
+
+            def repl(o, aname=aname, g=g, idx=idx):
+                if o.get("k") == "arg" and (o.get("name") == aname or o.get("idx") == idx):
+                    ty = o.get("ty")
+                    o.clear()
+                    o.update({"k": "global", "name": g, "ty": ty})
+            for b in f.get("blocks", []):
+                _walk_values(b.get("insts", []), repl)
+            drop.append(idx)
+            changed = True
+        # the parameter itself disappears (from the function and from every call of it), so that the helper has the signature it
+        # would have had reading the global directly
+        for idx in sorted(drop, reverse=True):
+            del f["args"][idx]
+            for args in calls[name]:
+                if idx < len(args):
+                    del args[idx]
+
+            def renum(o, idx=idx):
+                if o.get("k") == "arg" and isinstance(o.get("idx"), int) and o["idx"] > idx:
+                    o["idx"] -= 1
+            for b in f.get("blocks", []):
+                _walk_values(b.get("insts", []), renum)
+    return changed
+
+
 class Module:
     def __init__(self, path, unit=None, config=None):
         with open(path) as f:
@@ -462,6 +538,7 @@ class Module:
         self.ptr_size = d["ptr_size"]
         self.globals = {g["name"]: g for g in d["globals"]}
         self.functions = {}
+        _propagate_global_arguments(d)
         for fd in d["functions"]:
             self.functions[fd["name"]] = Function(fd, self)
         # DI name -> composite type id (through typedefs)
